@@ -1,4 +1,4 @@
 #!/bin/sh
 # builds the instrumented checker into bin/vschk-dev (development helper; checks use ./check)
 cd "$(dirname "$0")"; . ./env.sh
-mkdir -p /tmp/vsdev && bin/vxform -out /tmp/vsdev/x 2>/dev/null && go build -overlay /tmp/vsdev/x/overlay.json -o bin/vschk-dev ./cmd/vschk
+mkdir -p /tmp/vsdev && bin/vxform -race -out /tmp/vsdev/x 2>/dev/null && go build -overlay /tmp/vsdev/x/overlay.json -o bin/vschk-dev ./cmd/vschk
